@@ -2,6 +2,7 @@ package c07
 
 import (
 	"fmt"
+	"strings"
 
 	"owverif.local/verif/sched"
 	"owverif.local/verif/vf"
@@ -205,6 +206,17 @@ func Spec() *vf.Check {
 			cov["race_detector_enabled"] = vrt.RaceEnabled
 			cov["tla"] = map[string]interface{}{"tlc_distinct_states": m.Counters["tlc_distinct_states"], "tlc_model_edges": m.Counters["tlc_model_edges"],
 				"model_edges_exercised_by_implementation_traces": len(m.States), "implementation_traces_checked_against_model": m.Counters["impl_traces_checked_against_model"]}
+			if m.Counters["impl_traces_rejected_by_model"] > 0 {
+				cov["exhaustive"] = false
+				cov["tla"].(map[string]interface{})["conformant"] = false
+				for k, v := range m.Notes {
+					if strings.HasPrefix(k, "conformance-failure") {
+						fmt.Fprintf(vf.Stdout, "MODEL-CONFORMANCE-FAILURE property=C07 (not a violation: the TLA+ model no longer matches the code, its verdict does not apply to this tree) %s\n", v)
+					}
+				}
+			} else {
+				cov["tla"].(map[string]interface{})["conformant"] = true
+			}
 			delete(cov, "states")
 			cov["states"] = m.Counters["scheduling_points"] + m.Counters["graphs_run"] + m.Counters["tlc_distinct_states"]
 			if m.Counters["horizon_hits"] > 0 {
